@@ -172,7 +172,11 @@ func parseTextListing(txt string) ([]parsedItem, error) {
 				x, _ := strconv.ParseUint(t, 16, 8)
 				b = append(b, byte(x))
 			}
-			items = append(items, parsedItem{Kind: "ins", Addr: uint32(v), Bytes: b, Line: ln})
+			txt := line
+			if idx := strings.LastIndex(line, m[0]); idx >= 0 {
+				txt = line[:idx]
+			}
+			items = append(items, parsedItem{Kind: "ins", Addr: uint32(v), Bytes: b, Text: strings.TrimSpace(txt), Line: ln})
 		}
 	}
 	if pendingAddr >= 0 {
@@ -293,6 +297,12 @@ func checkListing(kind int64, txt string, m *asmModel, bytes []byte, step int) *
 				return &sim.Violation{Oracle: "text_listing_bytes", Step: step,
 					Msg: fmt.Sprintf("%s line %d at %#x shows bytes %x, Bytes() holds %x there", w.Kind, p.Line, p.Addr, p.Bytes, bytes[o:o+w.Len])}
 			}
+			if w.Kind == "ins" {
+				if tok, val, ok := operandTextDisagrees(p.Text, p.Bytes); ok {
+					return &sim.Violation{Oracle: "text_listing_operand", Step: step,
+						Msg: fmt.Sprintf("instruction line %d at %#x: the operand is written %s in %q but the bytes of the line are %x (operand %#x): the line shows other bytes than those emitted", p.Line, p.Addr, tok, p.Text, p.Bytes, val)}
+				}
+			}
 		}
 		pi++
 	}
@@ -302,6 +312,43 @@ func checkListing(kind int64, txt string, m *asmModel, bytes []byte, step int) *
 			Msg: fmt.Sprintf("listing has an extra %s line (line %d, addr %#x, %d bytes) that corresponds to nothing that was issued and accepted", p.Kind, p.Line, p.Addr, len(p.Bytes))}
 	}
 	return nil
+}
+
+var reOperandTok = regexp.MustCompile(`(?:\$|0x)([0-9a-fA-F]+)`)
+
+// operandTextDisagrees: the assembly text of an instruction line writes its operand as one
+// hex literal of exactly the operand's width, and that literal is not the operand the bytes
+// of the same line carry. Relative branches, PER and block moves render something other than
+// their raw operand and are left alone, as is any text without such a literal (label names).
+func operandTextDisagrees(text string, b []byte) (string, uint32, bool) {
+	n := len(b) - 1
+	if n < 1 || n > 3 {
+		return "", 0, false
+	}
+	switch b[0] {
+	case 0x10, 0x30, 0x50, 0x70, 0x90, 0xB0, 0xD0, 0xF0, 0x80, 0x82, 0x62, 0x44, 0x54:
+		return "", 0, false
+	}
+	var toks []string
+	for _, m := range reOperandTok.FindAllStringSubmatch(text, -1) {
+		if len(m[1]) == 2*n {
+			toks = append(toks, m[1])
+		} else {
+			return "", 0, false // literals of another width: not a plain rendering of the operand
+		}
+	}
+	if len(toks) != 1 {
+		return "", 0, false
+	}
+	var val uint32
+	for i := n; i >= 1; i-- {
+		val = val<<8 | uint32(b[i])
+	}
+	v, err := strconv.ParseUint(toks[0], 16, 32)
+	if err != nil || uint32(v) == val {
+		return "", 0, false
+	}
+	return "$" + toks[0], val, true
 }
 
 func firstDiff(a, b []byte) int {
@@ -414,6 +461,20 @@ func (c15) Exec(sc *sim.Scenario, env *sim.Env) *sim.Violation {
 			}
 			if v := checkListing(kind, string(h0.All()), m, pre.Bytes, i); v != nil {
 				return v
+			}
+			if k%3 == 0 {
+				// the same listing into a writer that offers io.StringWriter / io.ByteWriter /
+				// io.ReaderFrom (as bytes.Buffer, strings.Builder and os.File do)
+				rs := &sim.RichSink{SimSink: sim.NewSink(env, sim.SinkOK, 0)}
+				p, pmsg, err := doListing(e, kind, rs)
+				if p || err != nil {
+					return &sim.Violation{Oracle: "listing_panic", Step: i, Msg: fmt.Sprintf("listing (kind %d) into a writer with optional io interfaces: panic=%v %s err=%v", kind, p, pmsg, err)}
+				}
+				if v := checkListing(kind, string(rs.All()), m, pre.Bytes, i); v != nil {
+					v.Msg = "into a writer that also offers WriteString/WriteByte/ReadFrom: " + v.Msg
+					return v
+				}
+				st.ProbeIf(rs.Upgrades > 0, "listing_used_optional_writer_interface")
 			}
 			st.ProbeIf(refusedSoFar, "listing_after_refusal")
 			if refusedSoFar {
